@@ -311,14 +311,14 @@ pub fn hf_json(rng: &mut Rng, variant: usize) -> Vec<u8> {
     let big_id = if odd(rng) { *rng.pick(&["4294967295", "4294967294", "4294967296"]) } else { "6" };
     let model = match variant % 3 {
         0 => format!(
-            r#"{{"type":"BPE","vocab":{{"<unk>":0,"a":1,"b":2,"ab":3,"<0x41>":4,"{}":5,"€":7,"a€":8,"Ġa":9,"Ġ":{}}},"merges":["a b"],"byte_fallback":{},"unk_token":"<unk>"}}"#,
+            r#"{{"type":"BPE","vocab":{{"<unk>":0,"a":1,"b":2,"ab":3,"<0x41>":4,"A":10,"{}":5,"€":7,"a€":8,"Ġa":9,"Ġ":{}}},"merges":["a b"],"byte_fallback":{},"unk_token":"<unk>"}}"#,
             if odd(rng) { *rng.pick(&["<0xZZ>", "<0x4", "<0xÿ>", "<0x00>"]) } else { "<0x42>" },
             big_id,
             if variant % 2 == 0 { "true" } else { "false" }
         ),
         1 => r###"{"type":"WordPiece","vocab":{"[UNK]":0,"a":1,"##b":2,"##":3},"unk_token":"[UNK]","continuing_subword_prefix":"##","max_input_chars_per_word":100}"###.to_string(),
         _ => format!(
-            r#"{{"type":"Unigram","unk_id":{},"vocab":[["<unk>",0.0],["a",-1.0],["b",{}],["<0x41>",-2.0],["<0x{}>",-3.0]],"byte_fallback":{}}}"#,
+            r#"{{"type":"Unigram","unk_id":{},"vocab":[["<unk>",0.0],["a",-1.0],["b",{}],["A",-1.5],["<0x41>",-2.0],["<0x{}>",-3.0]],"byte_fallback":{}}}"#,
             if odd(rng) { *rng.pick(&["7", "null"]) } else { "0" },
             if odd(rng) { "-1e39" } else { "-1.5" },
             if odd(rng) { "Zz" } else { "42" },
